@@ -27,6 +27,30 @@ class Summary:
         self.memo = {}
         self.restore_memo = {}
 
+    def dirty_on_err(self, body, all_fields, _stack=()):
+        """fields a crate-local helper (whole `&mut self`) may leave modified when it returns Err; None when the helper
+        does not return a Result (then every field it touches counts)"""
+        key = ('err', body.npath)
+        if key in self.restore_memo:
+            return self.restore_memo[key]
+        if 'Result<' not in body.locals[0] or body.npath in _stack or len(_stack) > 3:
+            return None
+        ra = RestoreAnalysis(self.facts, body, all_fields, _stack=_stack + (body.npath,))
+        out = set()
+        found = False
+        for bb, kind, desc in exits(body):
+            if kind == 'unknown':
+                # tail call `other(..)` / `return res`: whatever is dirty there may be dirty on Err
+                kind = 'err'
+            if kind == 'err':
+                found = True
+                st = ra.state_after(bb)
+                if st:
+                    out |= {f for f in all_fields if st.get(f) == DIRTY and not ra.ok_only(st, f, bb)}
+        res = out if found else set()
+        self.restore_memo[key] = res
+        return res
+
     def restores_from_params(self, body, all_fields):
         """{field: param index} for helpers whose only effect on `field` is `self.field = <param k>` (a rollback helper)"""
         key = body.npath
@@ -105,11 +129,12 @@ class Summary:
 
 
 class RestoreAnalysis:
-    def __init__(self, facts, body, fields):
+    def __init__(self, facts, body, fields, _stack=()):
         self.F = facts
         self.body = body
         self.fields = list(fields)
         self.summary = Summary(facts)
+        self._stack = _stack
         self.snap_state = {}      # clone-call bb -> {field: state at the snapshot}
         self.state_in = {}
         self.events = []          # (bb, text) for diagnostics
@@ -147,7 +172,9 @@ class RestoreAnalysis:
                 if f is None:
                     for x in self.fields:
                         st[x] = DIRTY
+                        st[('tag', x)] = None
                 elif f in st:
+                    st[('tag', f)] = None
                     new = DIRTY
                     if whole_field and rv['k'] == 'use' and rv['op']['k'] in ('move', 'copy'):
                         sites = self._snapshot_sites(rv['op'], f)
@@ -165,6 +192,7 @@ class RestoreAnalysis:
                         reborrows.add(s['lhs']['l'])
                     elif f in st:
                         st[f] = DIRTY
+                        st[('tag', f)] = None
         self._reborrows = reborrows
         c = body.call_at(bb)
         if c:
@@ -182,14 +210,21 @@ class RestoreAnalysis:
                         a['pl']['l'] in reborrows or a['pl']['l'] == 1) and body.locals[a['pl']['l']].startswith(
                         '&mut'):
                     cbs = local_callee_bodies(self.F, c)
+                    dirty_err = None
                     if not cbs:
                         dirty = set(self.fields)
                         restores = {}
                     else:
                         dirty = set()
                         restores = None
+                        dirty_err = set()
                         for cb in cbs:
                             dirty |= self.summary.dirty_fields(cb, self.fields)
+                            de = self.summary.dirty_on_err(cb, self.fields, self._stack)
+                            if de is None:
+                                dirty_err = None
+                            elif dirty_err is not None:
+                                dirty_err |= de
                             rp = self.summary.restores_from_params(cb, self.fields)
                             restores = rp if restores is None else {f: k for f, k in restores.items() if rp.get(f) == k}
                     for f in dirty:
@@ -204,8 +239,28 @@ class RestoreAnalysis:
                             if sites and all(x is not None for x in sites) and all(
                                     self.snap_state.get(x, {}).get(f, CLEAN) == CLEAN for x in sites):
                                 new = RESTORED
+                        if new == DIRTY and dirty_err is not None and f not in dirty_err and st[f] != DIRTY:
+                            # the helper leaves f untouched when it fails: dirty only if this call succeeded
+                            st[('tag', f)] = bb
+                        elif new == DIRTY and not (dirty_err is not None and f not in dirty_err and
+                                                   st.get(('tag', f)) is not None):
+                            st[('tag', f)] = None
                         st[f] = new
         return st
+
+    def ok_only(self, st, f, exit_bb):
+        """field f is dirty only because a helper call succeeded, and this error exit propagates the failure of that
+        very call"""
+        t = st.get(('tag', f))
+        if not isinstance(t, int):
+            return False
+        body = self.body
+        d = [x for x in body.defs().get(0, []) if x[1] == exit_bb]
+        if not d:
+            return False
+        eb = ExprBuilder(body)
+        e = eb._call(d[0][2], (), 0) if d[0][0] == 'call' else eb._rvalue(d[0][3]['rv'], (), 0, (d[0][1], d[0][2]))
+        return any(y.kind == 'call' and y.extra is not None and getattr(y.extra, 'bb', None) == t for y in e.walk())
 
     def _solve(self):
         body = self.body
@@ -213,7 +268,7 @@ class RestoreAnalysis:
         for _round in range(6):
             before = {k: dict(v) for k, v in self.snap_state.items()}
             self._reborrows = set()
-            state_in = {0: {f: CLEAN for f in self.fields}}
+            state_in = {0: dict([(f, CLEAN) for f in self.fields] + [(('tag', f), None) for f in self.fields])}
             work = [0]
             while work:
                 bb = work.pop()
@@ -226,8 +281,13 @@ class RestoreAnalysis:
                     else:
                         changed = False
                         for f in self.fields:
+                            to, tc = out.get(('tag', f)), cur.get(('tag', f))
                             if out[f] > cur[f]:
                                 cur[f] = out[f]
+                                cur[('tag', f)] = to
+                                changed = True
+                            elif out[f] == cur[f] == DIRTY and to != tc and tc != 'mixed':
+                                cur[('tag', f)] = 'mixed'
                                 changed = True
                         if changed:
                             work.append(s)
